@@ -1,6 +1,9 @@
 package props
 
 import (
+	stdtls "crypto/tls"
+	"crypto/cipher"
+	"crypto/aes"
 	"context"
 	"errors"
 	"fmt"
@@ -374,7 +377,7 @@ func c26Scenarios(thorough bool) []*explore.Scenario {
 	if os.Getenv("C26_BOUND") != "" {
 		fmt.Sscan(os.Getenv("C26_BOUND"), &b)
 	}
-	return []*explore.Scenario{c26HandshakeCancel(b, false), c26DataPhase(b), c26WriteVsHandshake(b)}
+	return []*explore.Scenario{c26HandshakeCancel(b, false), c26DataPhase(b), c26WriteVsHandshake(b), c26Renegotiation(b)}
 }
 
 func init() {
@@ -383,7 +386,7 @@ func init() {
 			return []*explore.Scenario{c26HandshakeCancel(0, true), c26DataPhase(0), c26WriteVsHandshake(0)}
 		},
 		Run: func(c *explore.Check, thorough bool) {
-			c.Rule = "three harnesses on the real UConn under the controlled scheduler (sync, sync/atomic, channel, go and select of package tls redirected; conn Read/Write/Close and context cancellation are scheduling points; the standard library's crypto/tls server is the peer, run to quiescence; its output is delivered chunk by chunk by a scheduled network thread), clients {HelloGolang, HelloChrome_Auto, HelloChrome_58}: (A) HandshakeContext(ctx1) || {Handshake(), HandshakeContext(ctx2)+cancel2, -} || cancel1; (B) after an un-branched handshake Read || Write || {Close, CloseWrite, -, Close while the peer has stopped reading so that the transport write blocks}; (C) Write || Handshake || {Close, Read}. All schedules with <= 1 (2) preemptions and <= 1 (2) free switches, pruned by a happens-before state key. Oracle: no deadlock/livelock, no panic, every caller returns the shared outcome (nil iff HandshakeComplete) or its own context error with the connection closed, callers agree, late cancellation is inert (epilogue round trip), data read is a prefix of what was written, Write after Close fails. distinct = outcome class"
+			c.Rule = "four harnesses (D added in round 4: a HelloRequest handled inside Read at TLS 1.2 || Write || optional Close, 3 clients) on the real UConn under the controlled scheduler (sync, sync/atomic, channel, go and select of package tls redirected; conn Read/Write/Close and context cancellation are scheduling points; the standard library's crypto/tls server is the peer, run to quiescence; its output is delivered chunk by chunk by a scheduled network thread), clients {HelloGolang, HelloChrome_Auto, HelloChrome_58}: (A) HandshakeContext(ctx1) || {Handshake(), HandshakeContext(ctx2)+cancel2, -} || cancel1; (B) after an un-branched handshake Read || Write || {Close, CloseWrite, -, Close while the peer has stopped reading so that the transport write blocks}; (C) Write || Handshake || {Close, Read}. All schedules with <= 1 (2) preemptions and <= 1 (2) free switches, pruned by a happens-before state key. Oracle: no deadlock/livelock, no panic, every caller returns the shared outcome (nil iff HandshakeComplete) or its own context error with the connection closed, callers agree, late cancellation is inert (epilogue round trip), data read is a prefix of what was written, Write after Close fails. distinct = outcome class"
 			c.Assumptions = []string{"scheduling points are the hooked synchronisation operations; unsynchronised accesses are only seen by the separate free-running -race pass", "the peer runs atomically between client writes (finer peer timing is represented by chunked delivery only)", "preemption-bounded: no violation with <= k preemptions is the claim"}
 			runAll(c, c26Scenarios(thorough), 0)
 			if c.ShardN == 0 {
@@ -391,4 +394,119 @@ func init() {
 			}
 			attachRacePass(c)
 		}})
+}
+
+// tls12GCMRecord protects one record the way a TLS 1.2 AES-GCM sender does (RFC 5288): used to let
+// the standard-library peer "send" a HelloRequest it would never send itself.
+func tls12GCMRecord(key, iv []byte, seq uint64, typ byte, payload []byte) []byte {
+	b, _ := aes.NewCipher(key)
+	g, _ := cipher.NewGCM(b)
+	explicit := seqBytes(seq)
+	nonce := append(append([]byte{}, iv...), explicit...)
+	aad := append(seqBytes(seq), typ, 3, 3, byte(len(payload)>>8), byte(len(payload)))
+	body := append(append([]byte{}, explicit...), g.Seal(nil, nonce, payload, aad)...)
+	return append([]byte{typ, 3, 3, byte(len(body) >> 8), byte(len(body))}, body...)
+}
+
+// c26Renegotiation — H-D: after a TLS 1.2 handshake the server sends a HelloRequest. The reader
+// handles it inside Read (it rebuilds and sends a ClientHello while holding the input lock and
+// the handshake mutex) while a writer, and optionally Close, run concurrently. Every call must
+// return in every schedule (the standard-library peer refuses the renegotiation, so they return
+// errors or data; which one is not judged).
+func c26Renegotiation(preempt int) *explore.Scenario {
+	clients := c26Clients()
+	return &explore.Scenario{
+		Name:   "hello-request-vs-writer-vs-close",
+		Dedup:  true,
+		Budget: map[string]int{"preempt": preempt, "switch": preempt},
+		Run: func(x *explore.X) (r explore.Result) {
+			if sched.FreeRun {
+				r.Obs = "n/a-free-running"
+				return
+			}
+			cl := clients[x.Choose("client", len(clients))]
+			withClose := x.Choose("close", 2) == 1
+			l := newSchedLink()
+			defer closeLink(l)
+			kl := &keyLog{}
+			scfg := stdServerConfig()
+			scfg.MaxVersion = stdtls.VersionTLS12
+			scfg.CipherSuites = []uint16{stdtls.TLS_ECDHE_ECDSA_WITH_AES_128_GCM_SHA256}
+			scfg.KeyLogWriter = kl
+			scfg.SessionTicketsDisabled = true
+			l.stdServer(scfg)
+			ccfg := peer.ClientConfig("example.com")
+			ccfg.Renegotiation = tls.RenegotiateOnceAsClient // (parrots with a renegotiation_info extension set this themselves)
+			u := tls.UClient(clientEnd{l}, ccfg, cl.id)
+			var hmu sync.Mutex
+			var rdErr, wrErr, hsErr error
+			returned := map[string]bool{}
+			injected := false
+			out := sched.Run(x, sched.Options{Context: fmt.Sprint(cl.name, withClose)}, func() {
+				sched.GoNamed("net", true, l.network)
+				sched.SetBranching(false)
+				hsErr = u.Handshake()
+				sched.SetBranching(true)
+				if hsErr != nil {
+					return
+				}
+				var cstream []byte
+				for _, w := range l.writes {
+					cstream = append(cstream, w...)
+				}
+				l.mu.Lock()
+				sstream := append([]byte(nil), l.allOut...)
+				l.mu.Unlock()
+				cr, sr := helloRandom(cstream, 1), helloRandom(sstream, 2)
+				_, master := kl.master()
+				if cr == nil || sr == nil || master == nil || u.ConnectionState().Version != tls.VersionTLS12 {
+					return
+				}
+				kb := refPRF(tls.VersionTLS12, false, master, "key expansion", append(append([]byte{}, sr...), cr...), 40)
+				// the server's Finished was its record 0 under these keys: the HelloRequest is record 1
+				l.pending = append(l.pending, tls12GCMRecord(kb[16:32], kb[36:40], 1, 22, []byte{0, 0, 0, 0}))
+				injected = true
+				sched.GoNamed("R", false, func() {
+					b := make([]byte, 64)
+					_, err := u.Read(b)
+					hmu.Lock()
+					rdErr, returned["R"] = err, true
+					hmu.Unlock()
+				})
+				sched.GoNamed("W", false, func() {
+					_, err := u.Write([]byte("hello-from-writer"))
+					hmu.Lock()
+					wrErr, returned["W"] = err, true
+					hmu.Unlock()
+				})
+				if withClose {
+					sched.GoNamed("C", false, func() { u.Close(); hmu.Lock(); returned["C"] = true; hmu.Unlock() })
+				}
+			})
+			x.Transitions += out.Steps
+			what := fmt.Sprintf("%s close=%v", cl.name, withClose)
+			r.Nontrivial = true
+			if hsErr != nil || !injected {
+				r.Violate("INFRA|c26-renegotiation-setup", "%s: handshake %v, HelloRequest injected=%v", what, hsErr, injected)
+				return
+			}
+			if out.Deadlock || out.Horizon {
+				r.Violate("C26|HD|deadlock", "%s: a HelloRequest handled inside Read while other calls are in flight: %v (returned: %v)", what, out.Blocked, returned)
+			}
+			for _, p := range out.Panics {
+				r.Violate("C26|HD|panic|"+errClass(fmt.Errorf("%s", firstLineOf(p))), "%s: %s", what, truncStr(p, 500))
+			}
+			for _, e := range out.InfraErrors {
+				r.Violate("INFRA|sched", "%s", e)
+			}
+			if rdErr != nil && strings.Contains(rdErr.Error(), "no renegotiation") {
+				r.Count("renegotiation_refused_by_client", 1)
+			} else {
+				r.Count("renegotiation_hello_sent", 1)
+			}
+			r.Obs = fmt.Sprintf("r=%s|w=%s|dl=%v", errClass(rdErr), errClass(wrErr), out.Deadlock)
+			r.Class = what + "|" + r.Obs
+			return
+		},
+	}
 }
